@@ -1,0 +1,65 @@
+// SPDX-License-Identifier: Apache-2.0
+// Copyright Authors of Cilium
+
+//go:build verif
+
+package statedb
+
+import (
+	"time"
+
+	"github.com/cilium/statedb/internal"
+)
+
+// Exports for the external verification harness (build tag "verif").
+// Nothing here is compiled into normal builds.
+
+// VerifEncodeNonUniqueKey exposes the composite key stored in non-unique indexes.
+func VerifEncodeNonUniqueKey(primary, secondary []byte) []byte {
+	return encodeNonUniqueKey(primary, secondary)
+}
+
+// VerifEncodeNonUniqueBytes exposes the escaping applied to query keys of
+// non-unique indexes.
+func VerifEncodeNonUniqueBytes(src []byte) []byte {
+	return encodeNonUniqueBytes(src)
+}
+
+// VerifNonUniqueKeyParts splits a composite non-unique key into its (still
+// escaped) secondary and primary parts.
+func VerifNonUniqueKeyParts(key []byte) (secondary, primary []byte) {
+	k := nonUniqueKey(key)
+	return k.encodedSecondary(), k.encodedPrimary()
+}
+
+// VerifNumDeletedObjects returns the number of objects retained in the
+// graveyard of the table in the given snapshot.
+func VerifNumDeletedObjects(txn ReadTxn, table TableMeta) int {
+	return table.numDeletedObjects(txn)
+}
+
+// VerifSetGCRateLimitInterval sets the graveyard collection interval. Must be
+// called before Start().
+func (db *DB) VerifSetGCRateLimitInterval(interval time.Duration) {
+	db.setGCRateLimitInterval(interval)
+}
+
+// VerifTriggerGC requests a graveyard collection round (no-op if the
+// database has not been started or a round is already requested).
+func (db *DB) VerifTriggerGC() {
+	select {
+	case db.gcTrigger <- struct{}{}:
+	default:
+	}
+}
+
+// VerifSetLockHook re-exports internal.VerifSetLockHook, which cannot be
+// imported from another module.
+func VerifSetLockHook(f func(event string, seq uint64)) {
+	internal.VerifSetLockHook(f)
+}
+
+// VerifTableLockSeq returns the global sequence number of the table's lock.
+func VerifTableLockSeq(table TableMeta) uint64 {
+	return table.sortableMutex().Seq()
+}
